@@ -247,6 +247,15 @@ ImplExcs(c, f) ==
 
 Result(v, m, cl, ex) == [v |-> v, m |-> m, calls |-> cl, excs |-> ex]
 
+(* Broker.fire_observers (dr.py:896-907), called in the finally block of the *)
+(* loop for every registered component, processed or not: an observer        *)
+(* registered for a component type fires exactly once per attempt of a        *)
+(* component of that type or of a subtype, after the attempt's state change   *)
+(* (it sees the value, if there is one).  A registry point is a datasource.   *)
+ObsTypes == {"any", "plugin", "datasource", "parser", "rule", "combiner"}   \* "plugin" = PluginType, base of every kind
+TypeName(c) == IF Kind(c) = "point" THEN "datasource" ELSE Kind(c)
+ObserversFor(c) == {"any", "plugin"} \cup ({TypeName(c)} \cap ObsTypes)
+
 (* parser fed a list: one call per element (plugins.py:167-206)            *)
 RECURSIVE PLoop(_, _, _, _)
 PLoop(c, els, j, acc) ==
